@@ -66,6 +66,7 @@ class Ctx:
         self.n_compare = 0
         self.rng = None
         self.xr_axioms = False
+        self.xr_marks = None     # (lo, hi): range of exp landmarks worth instantiating (C09, per dtype)
         self.rng_perm = None     # callable(n) -> permutation used by the np.random.shuffle stub
         self.allow_ties = False  # tie runs: an exactly tied order comparison is recorded as '==' and the run goes on
 
